@@ -8,6 +8,13 @@
 #include "sqfrt.hpp"
 using namespace vh;
 
+// an address-space limit cannot be combined with AddressSanitizer's shadow mappings
+#if defined(__SANITIZE_ADDRESS__)
+static const size_t MEM_MB = 0;
+#else
+static const size_t MEM_MB = 2048;
+#endif
+
 struct TMsg { int level; size_t code; std::string text; long long t_ns; };
 class TimedLogger : public Logger
 {
@@ -161,7 +168,7 @@ int main()
             }
             for (auto& ch : obs) if (ch == '\t') ch = ' ';
             return obs + "\t" + times;
-        }, 8000);
+        }, 8000, MEM_MB);
         if (out.find('\t') == std::string::npos) out += "\t";
         std::cout << out << "\n";
     }
